@@ -24,7 +24,7 @@ func c20Script(k, chunking int, fail string) []vm.ReadStep {
 		for i := 0; i < k; i++ {
 			s = append(s, vm.ReadStep{Kind: "short", N: 1})
 		}
-	case 2: // two halves
+	case 2, 4: // two halves (4: through the process-wide default source, the caller supplying none)
 		if k/2 > 0 {
 			s = append(s, vm.ReadStep{Kind: "short", N: k / 2})
 		}
@@ -43,7 +43,7 @@ func c20Script(k, chunking int, fail string) []vm.ReadStep {
 	return s
 }
 
-const c20Enum = 3 * 3 * 33 * 4 // ops x failure kinds x k in [0,32] x chunkings
+const c20Enum = 3 * 3 * 33 * 5 // ops x failure kinds x k in [0,32] x deliveries (4 chunkings of a supplied source + the default source)
 
 // injectEntropyFaults makes the entropy source of some drawing operations of an
 // existing history fail after k < 32 bytes.
@@ -127,8 +127,8 @@ func genC20(r *rand.Rand, run int, tier string) *vm.Plan {
 	var k, chunking int
 	if run < c20Enum {
 		x := run
-		chunking = x % 4
-		x /= 4
+		chunking = x % 5
+		x /= 5
 		k = x % 33
 		x /= 33
 		fail = c20Fails[x%3]
@@ -136,12 +136,12 @@ func genC20(r *rand.Rand, run int, tier string) *vm.Plan {
 		opk = c20Ops[x%3]
 		b.p.Note = "enum"
 	} else {
-		opk, fail, k, chunking = c20Ops[r.Intn(3)], c20Fails[r.Intn(3)], r.Intn(34), r.Intn(4)
+		opk, fail, k, chunking = c20Ops[r.Intn(3)], c20Fails[r.Intn(3)], r.Intn(34), r.Intn(5)
 		b.p.Note = "random"
 	}
 	stream := make([]byte, 40)
 	r.Read(stream)
-	ent := &vm.Entropy{Bytes: hex.EncodeToString(stream), Script: c20Script(k, chunking, fail)}
+	ent := &vm.Entropy{Bytes: hex.EncodeToString(stream), Script: c20Script(k, chunking, fail), Default: chunking == 4}
 	key := b.key(false)
 	blk := g.Block(3, 1, 1)
 	var parent int
@@ -187,7 +187,7 @@ func genC20(r *rand.Rand, run int, tier string) *vm.Plan {
 func init() {
 	register(&Spec{
 		ID: "C20", Level: "fault_enumeration", Quick: c20Enum + 300, Thorough: c20Enum + 60000,
-		Rule: "fault enumeration: every operation that draws randomness (Builder.Build with WithRNG, biscuit.New(rng,..), Append(rng,..)) x failure kind (error, EOF, ErrUnexpectedEOF) x EVERY k in [0,32] bytes delivered before the failure (k=32: no failure) x 4 chunkings of the delivered prefix (at once, byte by byte, two halves, interleaved (0,nil) reads) = 1188 cases, each followed by a retry with a healthy source and a Seal with a source that fails on first touch; then random cases over the same space with longer histories. non-trivial = the failure actually fired during the draw or a token was built and its next secret checked (distinct by plan hash)",
+		Rule: "fault enumeration: every operation that draws randomness (Builder.Build with WithRNG, biscuit.New(rng,..), Append(rng,..)) x failure kind (error, EOF, ErrUnexpectedEOF) x EVERY k in [0,32] bytes delivered before the failure (k=32: no failure) x 5 deliveries of the prefix (a supplied source read at once, byte by byte, in two halves, with interleaved (0,nil) reads; and NO supplied source, the simulated process-wide default crypto/rand.Reader being read instead) = 1485 cases, each followed by a retry with a healthy source and a Seal with a source that fails on first touch; then random cases over the same space with longer histories. non-trivial = the failure actually fired during the draw or a token was built and its next secret checked (distinct by plan hash)",
 		Gen: genC20,
 		Oracles: func(m *vm.VM) []vm.Oracle {
 			return []vm.Oracle{vm.Common{Prop: "C20"}, vm.EntropyOracle{}, vm.ImmutOracle{Prop: "C08"}}
@@ -195,7 +195,7 @@ func init() {
 		Nontrivial: func(res *vm.Result) bool {
 			return res.Probes["entropy_failure_during_draw"] > 0 || res.Probes["token_with_healthy_entropy"] > 0 || res.Faults["entropy_failure"] > 0
 		},
-		ExtraCoverage: map[string]interface{}{"enumerated_cases": c20Enum, "exhaustive_in": "k = number of entropy bytes delivered before the failure (0..32), for each drawing operation, failure kind and chunking; runs 0..1187 of every check"},
+		ExtraCoverage: map[string]interface{}{"enumerated_cases": c20Enum, "exhaustive_in": "k = number of entropy bytes delivered before the failure (0..32), for each drawing operation, failure kind and delivery; runs 0..1484 of every check"},
 		Real:          realAll, Simulated: []string{simAll[2]}, Assumptions: assumeAll[1:2],
 	})
 }
